@@ -113,14 +113,20 @@ def check(name, backend, v, parts, res=None):
     tolC = 1e-2 if name in LINEAR else 5e-2
     nev = 0
     fmin = ref_profile(w, free, {}, None)
-    if "cov-after-profile" in parts:
-        # the same definitions must hold after a query that saves and restores the minimiser state
+    after = [p for p in parts if p.startswith("cov-after-")]
+    if after:
+        # the same definitions must hold after a query that pins parameters, re-minimises and restores the minimiser state
         with warnings.catch_warnings():
             warnings.simplefilter("ignore")
-            ContoursProfiler(f, profile_points=5).get_profile(free[0])
+            if "cov-after-profile" in parts:
+                ContoursProfiler(f, profile_points=5).get_profile(free[0])
+            if "cov-after-profile-cl" in parts:
+                ContoursProfiler(f, profile_points=5).get_profile(free[-1], cl=0.9)
+            if "cov-after-asym" in parts:
+                f.asymmetric_parameter_errors
         C = np.asarray(f.parameter_cov_mat, dtype=float)
         errs = np.asarray(f.parameter_errors, dtype=float)
-    if "cov" in parts or "cov-after-profile" in parts:
+    if "cov" in parts or after:
         H = ref_hessian(w, free, sig)
         Cref = 2.0 * np.linalg.inv(H)
         sr = np.sqrt(np.diag(Cref))
@@ -146,15 +152,34 @@ def check(name, backend, v, parts, res=None):
     with warnings.catch_warnings():
         warnings.simplefilter("ignore")
         if "profile" in parts:
-            cp = ContoursProfiler(f, profile_points=7, profile_subtract_min=False)
-            for p in free:
-                prof = np.asarray(cp.get_profile(p, sigma=2))
-                for xv, yv in zip(prof[0], prof[1]):
-                    exp = ref_profile(w, free, {p: float(xv)}, None)
-                    nev += 1
-                    if abs(yv - exp) > 1e-3 + 1e-2 * abs(exp - fmin):
-                        out.append(("profile:%s" % p, dict(x=float(xv), cost=exp), float(yv), "wrong-value"))
-                        break
+            # every way to say whether the minimum is subtracted: profiler setting {default (True), False} x argument {None, True, False};
+            # the number of points through the profiler setting or the argument
+            refc = {}
+            for pi, p in enumerate(free):
+                combos = [(False, None, None)]
+                if pi == 0:
+                    combos += [(None, None, None), (None, False, None), (None, True, 5), (False, True, None), (False, False, 5)]
+                for setting, arg, pts in combos:
+                    kw = {} if setting is None else dict(profile_subtract_min=setting)
+                    cp = ContoursProfiler(f, profile_points=7, **kw)
+                    akw = {} if arg is None else dict(subtract_min=arg)
+                    if pts is not None:
+                        akw["points"] = pts
+                    prof = np.asarray(cp.get_profile(p, sigma=2, **akw))
+                    sub = arg if arg is not None else (True if setting is None else setting)
+                    tag = "profile:%s" % p if (setting, arg, pts) == (False, None, None) else "profile:%s[setting=%s,subtract_min=%s,points=%s]" % (p, setting, arg, pts)
+                    if len(prof[0]) != (7 if pts is None else pts):
+                        out.append((tag, 7 if pts is None else pts, int(len(prof[0])), "wrong-number-of-points"))
+                        continue
+                    for xv, yv in zip(prof[0], prof[1]):
+                        k = (p, round(float(xv), 12))
+                        if k not in refc:
+                            refc[k] = ref_profile(w, free, {p: float(xv)}, None)
+                        exp = refc[k] - (fmin if sub else 0.0)
+                        nev += 1
+                        if abs(yv - exp) > 1e-3 + 1e-2 * abs(refc[k] - fmin):
+                            out.append((tag, dict(x=float(xv), cost=exp), float(yv), "wrong-value"))
+                            break
         if "asym" in parts:
             A = f.asymmetric_parameter_errors
             if A is None:
@@ -218,7 +243,7 @@ def check(name, backend, v, parts, res=None):
     return out, nev, w
 
 
-PARTS = ["cov", "cov-after-profile", "profile", "asym", "contour", "band"]
+PARTS = ["cov", "cov-after-profile", "cov-after-profile-cl", "cov-after-asym", "profile", "asym", "contour", "band"]
 
 
 def jobs(tier, seed):
@@ -232,14 +257,14 @@ def jobs(tier, seed):
                         continue  # badly scaled on purpose (slope ~1e-6): only the covariance and the band are judged on it
                     if backend == "scipy" and part == "contour" and (tier == "quick" or name not in ("lin-y", "exp-y", "exp-xy")):
                         continue
-                    if backend == "scipy" and part in ("profile", "asym") and tier == "quick" and name not in ("lin-y", "exp-xy", "exp-fixed"):
+                    if backend == "scipy" and part in ("profile", "asym", "cov-after-profile-cl", "cov-after-asym") and tier == "quick" and name not in ("lin-y", "exp-xy", "exp-fixed"):
                         continue
                     specs.append((name, backend, vv, part))
     return specs
 
 
 def bound(tier, seed):
-    return "%d fitted problems x {iminuit, scipy} x {covariance/errors/correlation, 7-point profiles of every free parameter, asymmetric errors, 1- and 2-sigma contours of the first parameter pair (10 points), band at 5 points}; scipy profiles/asymmetric errors on 3 problems and no scipy contours in the quick tier; valuation(s) %s" % (
+    return "%d fitted problems x {iminuit, scipy} x {covariance/errors/correlation (also after a profile, a profile by confidence level and an asymmetric-error query), 7-point profiles of every free parameter (first parameter: every combination of the subtract_min setting / argument and points argument), asymmetric errors, 1- and 2-sigma contours of the first parameter pair (10 points), band at 5 points}; scipy profiles/asymmetric errors on 3 problems and no scipy contours in the quick tier; valuation(s) %s" % (
         len(PROBS_QUICK if tier == "quick" else PROBS_ALL),
         (seed % 3) if tier == "quick" else "0,1,2",
     )
